@@ -209,7 +209,7 @@ def q_sweep(tier, K=2):
 @prop("C07", ["observation list bound K per query (stated in bounds); per-frame capacity crossed by K=29 at MTU 576 (capacity 27) and by the small-MTU model query (MTU 100, capacity 3, K=5) whose MTU lies outside the property's range but exercises the same code",
               "Query/Probe issued in any state; a Query is answered regardless of its sender (C05 leaves strangers' commands unconstrained)"])
 def c07(tier, seed):
-    qs = [q_query(tier, 3), q_probe(tier, 3), q_reset(tier, 3), q_probe_room(),
+    qs = [q_query(tier, 3), q_probe(tier, 3), q_reset(tier, 3), q_probe_room(), q_discover(1, 1, K=3), q_emit_full(3), q_qltlv("alltypes_576"), q_other(tier, 3),
           q_query(tier, 5, frame_n=100, name="query_smallmtu")] + q_query_boundary(tier)
     if tier == "thorough":
         qs += [q_query(tier, 29), q_probe(tier, 8), q_query(tier, 3, frame_n=1500), q_query(tier, 3, frame_n=640, mtu_min=576, name="query_symmtu"),
